@@ -57,6 +57,12 @@ def run(ctx):
         r = sc.judge(ctx, case, v, obs, 'run() rows vs delayed recurrence')
         verdicts[r] = verdicts.get(r, 0) + 1
     ctx.notes['verdicts'] = verdicts
+    # code -> spec: the recorded right-hand-side calls of real runs must be a behaviour of Solver.tla (ring buffers per call)
+    import random
+    from .. import solvertrace
+    sel = list(cases)
+    random.Random(ctx.seed).shuffle(sel)
+    solvertrace.check(ctx, 'C09', sel, sc.KNOWN_DEVS, sc.FINDING_OF, cap=250 if tier == 'quick' else 2500)
     # pinned reproducer of D36 (class excluded from the enumeration above)
     if ctx.open_finding('D36'):
         m = dict(n=4, c=[2, 0, 0, 0], a=[0, 2, 0, 0], x0=[0, 1, 0, 7], ext=[[], [], [], []], kind=[1, 1, 2, 2],
